@@ -40,22 +40,8 @@ def main(tier):
     tot = m1_ops._replay(lines, ["mixin"], False, None, core.repo_path(), procs=4)
     print("selftest 2: %d vectors replayed, %d differ from the (corrupted) expectation" % (tot["n"], len(tot["attention"])))
     ok &= len(tot["attention"]) == 1
-    # ---- 2b. vacuity: every program point of the interpreter is exercised by the model (TLC -coverage)
-    cov = m1_ops.configs("quick")[1]
-    st = T.run_tlc("MC_Ops", m1_ops.tlc_cfg(cov).replace("ACTION_CONSTRAINT Emit\n", ""), tag="coverage-" + cov["name"], coverage=True,
-                   workers=4, keep_prefixes=("\x00",))
-    T.require_ok(st)
-    src = open(os.path.join(T.SPEC, "NodeOps.tla")).read().split("\n")
-    first = next(i for i, l in enumerate(src, 1) if l.startswith("Step(c) =="))
-    last = next(i for i, l in enumerate(src, 1) if l.startswith("RECURSIVE Run"))
-    dead = []
-    for z in st["zero_cov"]:
-        mod, line = z.split(":")[0], int(z.split(":")[1])
-        if mod == "NodeOps" and first <= line < last and "AssertionError" not in src[line - 1]:
-            dead.append((line, src[line - 1].strip()[:80]))
-    print("selftest 2b: TLC coverage of NodeOps!Step on %s: %d expressions never evaluated (assertion arms excluded): %s"
-          % (cov["name"], len(dead), dead[:5]))
-    ok &= not dead
+    # ---- 2b. vacuity: every program point of the interpreter is exercised by the model (checked on every M1 run, see m1_ops.run)
+    print("selftest 2b: program points of NodeOps!Step reached by the %d vectors of %s: %d of %d" % (tot["n"], c["name"], len(tot["pcs"]), len(m1_ops.ALL_PCS)))
     # ---- 3. seeded changes
     if os.environ.get("VERIF_SELFTEST_MUTANTS"):
         sd = os.path.join(core.VERIF, "seeded")
